@@ -8,6 +8,8 @@ pub mod c03;
 pub mod c04;
 pub mod c05;
 pub mod c07;
+pub mod c10;
+pub mod c11;
 pub mod c13;
 pub mod c17;
 pub mod c20;
@@ -51,7 +53,19 @@ pub trait Prop {
 }
 
 pub fn all() -> Vec<Box<dyn Prop>> {
-    vec![Box::new(c01::C01), Box::new(c02::C02), Box::new(c03::C03), Box::new(c04::C04), Box::new(c05::C05), Box::new(c07::C07), Box::new(c13::C13), Box::new(c17::C17), Box::new(c20::C20)]
+    vec![
+        Box::new(c01::C01),
+        Box::new(c02::C02),
+        Box::new(c03::C03),
+        Box::new(c04::C04),
+        Box::new(c05::C05),
+        Box::new(c07::C07),
+        Box::new(c10::C10),
+        Box::new(c11::C11),
+        Box::new(c13::C13),
+        Box::new(c17::C17),
+        Box::new(c20::C20),
+    ]
 }
 
 pub fn lookup(id: &str) -> Option<Box<dyn Prop>> {
